@@ -27,7 +27,7 @@ CHECKS = {
    note='Trusted: SimDfuSe models DFU 1.1 / ST AN3156 faithfully for what dfu.py touches; no real hardware is reachable. The poll-delay clause is judged literally (every bwPollTimeout, also on non-busy replies).'),
  'C19': dict(engine='dfu-sim', category='fault_enumeration', ref='3.2',
    technique='deterministic simulation with fault injection: enumeration of device error-status injection points (single and pairs) x 15 status codes x strict/lenient device, oversize sweep, plus seeded sampling over lengths/schedules',
-   text='Every single injection point x status code x device leniency is enumerated for page counts 1..6 (quick) / 1..16 (thorough), every ordered pair for <=4 (<=8) pages, plus seeded sampling on large images with faults biased to the last erase/write; oversize lengths per variant. Exhaustive within those bounds, sampled beyond.',
+   text='Every single injection point (erase, set-address, data write) x status code 1..15 x device leniency is enumerated for page counts 1..8 (quick) / 1..32 (thorough), every ordered pair of points for <=4 (<=12) pages, plus seeded sampling on large images with faults biased to the last erase/write; oversize lengths per variant with random, 0xFF/0x00-tailed and DFU-suffixed content. Exhaustive within those bounds, sampled beyond.',
    note='Trusted: the device reports failures via bStatus in the completing GETSTATUS reply. "Naming the failure" is checked weakly (non-empty exit message, uncaught exception, or an output line the fault-free twin does not print).'),
  'C17': dict(engine='simfs', category='fault_enumeration', ref='3.3',
    technique='deterministic simulation with fault injection: real cli_main() on an in-memory file system; enumeration of crash points (AssemblerError / foreign exception at entry+exit of each of the 17 passes, line-granular teardown inside assemble() via sys.settrace), planted faulty lines per pass, pre-existing output files, option matrix; outputs compared with the API and an independent Intel HEX reader',
